@@ -62,6 +62,8 @@ DEFAULT_CFG = {
     "switch_pct": 30,       # probability (percent) of leaving the current thread at a yield point
     "line_gap": 0,          # mean number of LINE events between line-level pre-emptions (0 = off)
     "sleep_jitter_pct": 0,  # per-thread oversleep factor up to this percentage
+    "low_prio": None,       # list of role prefixes that are starved (see _pick)
+    "low_prio_pct": 90,
     "max_steps": 400000,
     "max_time": 600.0,
 }
@@ -244,6 +246,15 @@ class Sim:
     def _pick(self, prefer=None):
         while True:
             runnable = self._runnable()
+            low = self.cfg.get("low_prio")
+            if runnable and low and len(runnable) > 1:
+                # priority scheduling (PCT flavour): threads whose role starts with one of the `low_prio`
+                # prefixes only run when nothing else can, except with probability 100-low_prio_pct
+                normal = [t for t in runnable if not (t.role or "").startswith(tuple(low))]
+                if normal and len(normal) < len(runnable) and not self.chance("sched", 100 - self.cfg.get("low_prio_pct", 90)):
+                    runnable = normal
+                    if prefer is not None and prefer not in normal:
+                        prefer = None
             if runnable:
                 if prefer is not None and prefer.state == "runnable" and prefer.stall_until <= self.now:
                     if len(runnable) == 1:
